@@ -444,14 +444,14 @@ example : Golib.Gen.Trans.C14.Index [5, 7, 9, 7] (7 : Int) = .ok 1 ∧
     Golib.Gen.Trans.C14.Contains [5, 7, 9, 7] (8 : Int) = .ok false := by
   refine ⟨?_, ?_, ?_⟩ <;> decide +kernel
 
-/-! ### Regenerated tie (wave 8), continued: `slicez.Equal` / `slicez.Filter` translated by `go2lean`
+/-! ### Regenerated tie (wave 8), continued: `slicez.Equal` / `Filter` / `IndexFunc` / `ContainsFunc` translated by `go2lean`
 
 Abstraction between the generated code and the model: the translator's slices are content lists
 without aliasing and without a nil/empty distinction (`Sl.xs`; the nil flag is not represented);
 a model-side `none` (Go panic) is `Res.panic` (`resOfOption`).  The other C14 functions are
 outside the translator's subset (`nil` slice results: SubSlice, Copy, Chunk; results aliasing a
 written parameter: Remove, UniqueInPlace, FilterInPlace; maps: Unique; error-returning callback:
-ChunkProcess) and stay tied by correspondence + drift hash only. -/
+ChunkProcess; variadic: Values) and stay tied by correspondence + drift hash only. -/
 
 /-- TIE: the translated `Equal` (length test, `s2 = s2[:len(s1)]`, a `range` loop with an early
 `return false`) equals the model's `equal` on every pair of slices — panic (`none`) exactly where
@@ -496,5 +496,24 @@ theorem c14_trans_Filter_spec (dst s : List Int) (p : Int → Bool) :
 example : Golib.Gen.Trans.C14.Filter [9, 9] ([2, 1, 2, 3, 1] : List Int) (fun v => v != 2) = .ok [1, 3, 1] ∧
     Golib.Gen.Trans.C14.Filter [] ([2, 2] : List Int) (fun v => v != 2) = .ok [] := by
   refine ⟨?_, ?_⟩ <;> decide +kernel
+
+/-- TIE: the translated `IndexFunc` (a `range` loop with an early `return i`; the callback is a
+pure total `Int → Bool`, the translator's stated assumption) equals the model's `indexFunc` for
+every slice and predicate: first position satisfying `fn`, else `-1`; no panic, fuel `len(s) + 1`
+suffices. -/
+theorem c14_trans_IndexFunc (s : List Int) (fn : Int → Bool) :
+    Golib.Gen.Trans.C14.IndexFunc s fn = .ok (indexFunc s fn) :=
+  trans_indexFunc s fn
+
+/-- TIE: the translated `ContainsFunc` (`IndexFunc(s, fn) >= 0`) equals the model's `containsFunc`. -/
+theorem c14_trans_ContainsFunc (s : List Int) (fn : Int → Bool) :
+    Golib.Gen.Trans.C14.ContainsFunc s fn = .ok (containsFunc s fn) :=
+  trans_containsFunc s fn
+
+/-- Non-vacuity: the first of two matches is reported; no match gives -1 / false. -/
+example : Golib.Gen.Trans.C14.IndexFunc ([5, 7, 9, 7] : List Int) (fun v => v > 6) = .ok 1 ∧
+    Golib.Gen.Trans.C14.IndexFunc ([5, 7, 9, 7] : List Int) (fun v => v > 9) = .ok (-1) ∧
+    Golib.Gen.Trans.C14.ContainsFunc ([5, 7, 9, 7] : List Int) (fun v => v > 9) = .ok false := by
+  refine ⟨?_, ?_, ?_⟩ <;> decide +kernel
 
 end Golib.C14
